@@ -104,6 +104,91 @@ def _receiver_chain(t: Term) -> List[Term]:
     return out
 
 
+def none_default_numeric_fields(ck, rule):
+    """A constructor field whose default is None and that some code uses as a number (an argument of range(), an operand of
+    arithmetic or of an order comparison) must be given a number at every construction: a factory that fills the default in
+    (`end or len(c) - 1`) does not help an object that is built around the factory (a subclass calling super().__init__ without it).
+    The message handlers of -D run inside the workers: a TypeError there aborts the whole run."""
+    p = ck.ctx.p
+    ck.clause(rule, "a None-default constructor field that is used as a number is bound to a number at every construction site "
+                    "(subclass constructors included): otherwise the use raises TypeError - in a -D plot handler that ends the run")
+    classes = [c for c in p.classes.values() if not c.module.is_test and c.module.name.startswith("src.")]
+    n_fields = n_sites = 0
+    for c in classes:
+        init = c.methods.get("__init__")
+        if init is None or not init.self_name or c.is_dataclass:
+            continue
+        a = init.node.args
+        pos = a.posonlyargs + a.args
+        defaults = dict(zip([x.arg for x in pos[len(pos) - len(a.defaults):]], a.defaults))
+        for prm, d in defaults.items():
+            if not (isinstance(d, ast.Constant) and d.value is None):
+                continue
+            stored = [n for n in ast.walk(init.node) if isinstance(n, ast.Assign) and len(n.targets) == 1 and isinstance(n.targets[0], ast.Attribute)
+                      and isinstance(n.targets[0].value, ast.Name) and n.targets[0].value.id == init.self_name and n.targets[0].attr == prm
+                      and isinstance(n.value, ast.Name) and n.value.id == prm]
+            if not stored:
+                continue
+            # numeric uses of .<prm> anywhere in src/
+            uses = []
+            for f in p.nontest_functions():
+                if f.is_lambda or not f.module.name.startswith("src."):
+                    continue
+                guarded = any(isinstance(x, ast.Compare) and any(isinstance(o, (ast.Is, ast.IsNot)) for o in x.ops) and
+                              any(isinstance(y, ast.Attribute) and y.attr == prm for y in ast.walk(x)) for x in ast.walk(f.node)) or \
+                    any(isinstance(x, ast.BoolOp) and isinstance(x.op, ast.Or) and isinstance(x.values[0], ast.Attribute) and x.values[0].attr == prm
+                        for x in ast.walk(f.node))
+                if guarded:
+                    continue
+                for x in ast.walk(f.node):
+                    args = []
+                    if isinstance(x, ast.Call) and isinstance(x.func, ast.Name) and x.func.id in ("range", "int", "float", "round", "abs", "min", "max"):
+                        args = list(x.args)
+                    elif isinstance(x, ast.BinOp):
+                        args = [x.left, x.right]
+                    elif isinstance(x, ast.Compare) and all(isinstance(o, (ast.Lt, ast.LtE, ast.Gt, ast.GtE)) for o in x.ops):
+                        args = [x.left] + list(x.comparators)
+                    for y in args:
+                        if isinstance(y, ast.Attribute) and y.attr == prm and not (isinstance(y.value, ast.Name) and y.value.id == "self" and f.cls is not None
+                                                                                      and f.cls not in p.mro(c) and c not in p.mro(f.cls)):
+                            uses.append((f, x))
+            if not uses:
+                continue
+            n_fields += 1
+            family = [k for k in classes if c in p.mro(k)]
+            index = [x.arg for x in pos].index(prm) - 1          # position among the call's arguments (self excluded)
+            for f in p.nontest_functions():
+                if f.is_lambda:
+                    continue
+                for x in ast.walk(f.node):
+                    if not isinstance(x, ast.Call):
+                        continue
+                    is_super = isinstance(x.func, ast.Attribute) and x.func.attr == "__init__" and isinstance(x.func.value, ast.Call) and \
+                        isinstance(x.func.value.func, ast.Name) and x.func.value.func.id == "super" and f.cls is not None and f.cls is not c and \
+                        c in p.mro(f.cls) and p.lookup_method(p.mro(f.cls)[1], "__init__", None) is init
+                    is_ctor = isinstance(x.func, ast.Name) and any(k.name == x.func.id for k in family) and \
+                        p.lookup_method(next(k for k in family if k.name == x.func.id), "__init__", None) is init
+                    if not (is_super or is_ctor):
+                        continue
+                    if any(isinstance(a0, ast.Starred) for a0 in x.args) or any(k.arg is None for k in x.keywords):
+                        continue
+                    n_sites += 1
+                    val = next((k.value for k in x.keywords if k.arg == prm), x.args[index] if len(x.args) > index else None)
+                    unbound = val is None or (isinstance(val, ast.Constant) and val.value is None)
+                    uf, ux = uses[0]
+                    if unbound:
+                        ck.violation(rule, f"{short(f)}:{c.name}.{prm}", where(f, x),
+                                     f"`{prm}` of {c.name} is left None here, but it is used as a number ({where(uf, ux)}: "
+                                     f"`{ast.unparse(ux)[:80]}`): the object built at this site makes that use raise TypeError - reached "
+                                     "through a -D plot handler inside a worker, it aborts the whole run for an input the aligner itself "
+                                     "handles (a query longer than a reference)", found=ast.unparse(x)[:100].replace("\n", " "),
+                                     required=f"{prm}=<a number> (an empty correlation spans [0, 0))")
+                    else:
+                        ck.ok(rule, f"{short(f)}:{c.name}.{prm}", where(f, x), f"{prm} is bound at this construction", ast.unparse(val)[:60])
+    ck.floor(f"{rule} None-default numeric fields found", n_fields, 1)
+    ck.floor(f"{rule} construction sites judged", n_sites, 3)
+
+
 def run(ck):
     ctx = ck.ctx
     p = ctx.p
@@ -404,6 +489,7 @@ def run(ck):
     ck.floor("C07.G14 functions scanned for attribute reads under isinstance guards", n_fn, 150)
     if not n_hit:
         ck.ok("C07.G14", "run path", "src/", f"{n_fn} functions: every attribute read under an isinstance guard exists on the guarded class(es)")
+    none_default_numeric_fields(ck, "C07.G24")
     ck.clause("C07.G23", "output directories are created with exist_ok=True: the same command run twice (or two modes into one place) "
                          "must not abort on the directory the first run left - argparse has already truncated the -o file by then")
     n_mk = 0
